@@ -483,7 +483,61 @@ def steps_of(case):
     raise HarnessError("unknown plan")
 
 
+# ---- UPDATE .. ORDER BY .. LIMIT (SQLite and MySQL builders): the same clause on a data-changing statement -------------------------------
+
+UPDATE_CLS = ("sqlite", "mysql")
+
+
+def update_cases():
+    for cls in UPDATE_CLS:
+        for L, O, par in itertools.product((None, 0, LV), (None, 0, OV), (False, True)):
+            for name, steps in plans(L, O, cls):
+                if name in ("fetch_next", "top"):
+                    continue
+                yield {"mode": "update", "cls": cls, "L": L, "O": O, "par": par, "plan": name}
+
+
+def check_update(case):
+    cls, L, O = case["cls"], case["L"], case["O"]
+    steps = [s for n, s in plans(L, O, cls) if n == case["plan"]][0]
+    src = {"R": ["tbl", "r", None, None]}
+    base = [["update", [["src", "R"]]], ["set", [["col", "R", "v"], ["raw", 9]]]]
+    if L is not None or O is not None:
+        base.append(["orderby", [["col", "R", "id"]]])
+    try:
+        q = prog.build_program({"cls": cls, "sources": src, "steps": base + steps})
+        sql, vals = prog.render(q, cls, True) if case["par"] else (prog.render(q, cls), [])
+    except Exception as e:
+        if type(e).__module__.startswith("pypika_tortoise"):
+            return []  # a refusal is not a wrong clause
+        return [(mksig(cls, "update", "raises:" + type(e).__name__), repr(e))]
+    if cls == "mysql":
+        # MySQL's UPDATE has LIMIT n only: there is no place for an offset, and a statement that silently leaves it out changes other rows
+        if O and "OFFSET" not in sql.upper():  # (an offset of 0 skips nothing: leaving it out is harmless)
+            return [(mksig("mysql", "update", "offset_dropped"), "offset(%d) on UPDATE is neither rendered nor refused: %r" % (O, sql))]
+        return []
+    con = sqlite3.connect(":memory:")
+    try:
+        con.execute("CREATE TABLE r (id INTEGER PRIMARY KEY, v)")
+        con.executemany("INSERT INTO r VALUES (?, 0)", [(i,) for i in range(1, 9)])
+        try:
+            con.execute(sql, vals)
+        except sqlite3.Error as e:
+            return [(mksig("sqlite", "update", "engine_reject"), "%r: %s" % (sql, e))]
+        got = [i for i, v in con.execute("SELECT id, v FROM r ORDER BY id") if v == 9]
+    finally:
+        con.close()
+    ids = list(range(1, 9))
+    m = O or 0
+    want = ids[m:] if L is None else ids[m:m + L]
+    if got != want:
+        return [(mksig("sqlite", "update", "rows"), "%r (limit %r, offset %r) updated the rows %r, expected %r" % (sql, L, O, got, want))]
+    return []
+
+
 def check_case(case):
+    if case.get("mode") == "update":
+        return check_update(case)
     if case.get("mode") == "two":
         return check_two(case)
     if case.get("mode") == "top":
@@ -500,6 +554,8 @@ def valid_case(case):
                 isinstance(case["wv"], int) and 0 <= case["wv"] <= 9 and all(case[k] in (True, False) for k in ("oi", "oo", "par"))
         if case.get("mode") == "top":
             return case["k"] in (0, 5)
+        if case.get("mode") == "update":
+            return case in list(update_cases())
         return case["cls"] in CTXS and case["pos"] in POSITIONS and case["L"] in (None, 0, LV) and case["O"] in (None, 0, OV) and bool(steps_of(case) is not None)
     except (Exception, HarnessError):
         return False
@@ -555,6 +611,11 @@ def run_shard(shard):
         col.case(case, nt, classes=("pos:" + case["pos"], "shape:" + shape(case["L"], case["O"]), "plan:" + case["plan"]), sample=sample)
         for sig, detail in check_case(case):
             col.violation(sig, case, detail)
+    for case in update_cases():
+        if case["cls"] == cls:
+            col.case(case, case["L"] is not None or case["O"] is not None, classes=("pos:update", "shape:" + shape(case["L"], case["O"]), "plan:" + case["plan"]))
+            for sig, detail in check_case(case):
+                col.violation(sig, case, detail)
     if cls == "mssql":
         for k in (0, 5):
             case = {"mode": "top", "k": k}
